@@ -94,6 +94,11 @@ func c07Recipe(recipe string) []byte {
 		}
 		body = append(body, 0x01, 0x00)
 		return wrapMsg(body)
+	case "bigleaf": // a nested one-element lists around one binary/U4 item of b payload bytes
+		body := bytes.Repeat([]byte{0x01, 0x01}, a)
+		body = append(body, 0o54<<2|2, byte(b>>8), byte(b))
+		body = append(body, bytes.Repeat([]byte{0x01}, b)...)
+		return wrapMsg(body)
 	case "smallitems": // a list of a one-element items of format code b
 		w := 1
 		switch b {
@@ -175,6 +180,11 @@ func c07Jobs(c *ctx) (small []iso.Job, large []iso.Job) {
 			r := fmt.Sprintf("leafchain %d %d", depth, code)
 			small = append(small, iso.Job{Input: c07Recipe(r), Family: "nest-with-leaf-per-level", Meta: r})
 		}
+	}
+	// one large array item at the bottom of a deep nest
+	for _, dp := range [][2]int{{500, 1000}, {1000, 2000}, {c.pick(2000, 4000), 4000}, {3000, 60000}} {
+		r := fmt.Sprintf("bigleaf %d %d", dp[0], dp[1])
+		small = append(small, iso.Job{Input: c07Recipe(r), Family: "nest-around-a-large-item", Meta: r})
 	}
 	// nested lists that each declare the largest child count the bytes present could still hold
 	for _, nl := range []int{1, 2, 3} {
@@ -276,7 +286,7 @@ func runC07(c *ctx) {
 
 	// distinct / non-trivial accounting (parent side, from the job list)
 	for _, j := range append(append([]iso.Job{}, small...), large...) {
-		nontrivial := len(j.Input) >= 4096 || j.Family == "declared-vs-present" || j.Family == "unclosed-chain" || j.Family == "greedy-nested-lists" || j.Family == "nest-with-leaf-per-level"
+		nontrivial := len(j.Input) >= 4096 || j.Family == "declared-vs-present" || j.Family == "unclosed-chain" || j.Family == "greedy-nested-lists" || j.Family == "nest-around-a-large-item" || j.Family == "nest-with-leaf-per-level"
 		if !nontrivial {
 			if _, ok := ref.Decode(j.Input); !ok {
 				nontrivial = true
@@ -361,7 +371,7 @@ func runC07(c *ctx) {
 			c.Sample(map[string]interface{}{"family": j.Family, "len": len(j.Input), "input": hex.EncodeToString(clipB(j.Input))})
 		}
 	}
-	c.Required = []string{"family/declared-vs-present", "family/single-point-fault", "family/long-item", "family/many-small-items", "family/generated-tree", "family/closed-chain", "family/nest-with-leaf-per-level", "family/greedy-nested-lists", "family/random", "accepted", "rejected"}
+	c.Required = []string{"family/declared-vs-present", "family/single-point-fault", "family/long-item", "family/many-small-items", "family/generated-tree", "family/closed-chain", "family/nest-with-leaf-per-level", "family/nest-around-a-large-item", "family/greedy-nested-lists", "family/random", "accepted", "rejected"}
 }
 
 func firstLines(s string, n int) string {
